@@ -5,8 +5,10 @@ package main
 
 import (
 	"fmt"
+	"net/http"
 	"time"
 
+	lfserrors "github.com/git-lfs/git-lfs/v3/errors"
 	"github.com/git-lfs/git-lfs/v3/tools"
 )
 
@@ -14,7 +16,7 @@ func c15Expiry(c *Ctx, r *Rng) {
 	n := c.N(400, 8000)
 	var lines, impl []string
 	for i := 0; i < n; i++ {
-		createdMs := -int64(r.Intn(20000))                  // the batch request was made up to 20 s ago
+		createdMs := -int64(r.Intn(20000))                               // the batch request was made up to 20 s ago
 		inS := int64(Pick(r, []int{0, 0, 1, 2, 5, 6, 7, 30, 3600, -30})) // expires_in (0 = absent)
 		marginMs := int64(Pick(r, []int{0, 5000, 5000, 1000}))
 		atMs := int64(0)
@@ -64,6 +66,58 @@ func c15Expiry(c *Ctx, r *Rng) {
 	for i := range lines {
 		if ans[i] != impl[i] {
 			c.R.Add(Finding{Kind: "diff", What: "action expiry (expires_in before expires_at, margin): model and implementation disagree", Case: lines[i], Impl: impl[i], Model: ans[i], Broken: "corr.C15.expiry"})
+		}
+	}
+}
+
+// c15RetryAfter: what errors.NewRetriableLaterError makes of a Retry-After value — the instant before which the
+// queue does not repeat the attempt.  Delta-seconds of every size (a delay too long for a time.Duration is still
+// a long delay, D86) and an HTTP-date in each of the three forms a recipient has to accept (RFC 7231 7.1.1.1):
+// the instant is never EARLIER than the one the server named.
+func c15RetryAfter(c *Ctx, r *Rng) {
+	n := c.N(300, 6000)
+	for i := 0; i < n; i++ {
+		now := time.Now()
+		var header string
+		var earliest time.Time // the instant the server named (a lower bound for what the client may use)
+		switch r.Intn(6) {
+		case 0, 1:
+			secs := Pick(r, []int64{0, 1, 2, 30, 3600, 86400 * 365, 9223372036, 9223372037, 99999999999, 1 << 62})
+			header = fmt.Sprint(secs)
+			if secs > 9000000000 {
+				secs = 9000000000 // "very far away" is all that can be asked of such a value
+			}
+			earliest = now.Add(time.Duration(secs) * time.Second)
+		case 2:
+			t := now.Add(time.Duration(1+r.Intn(5000)) * time.Second).UTC().Truncate(time.Second)
+			header, earliest = t.Format(http.TimeFormat), t
+		case 3:
+			t := now.Add(time.Duration(1+r.Intn(5000)) * time.Second).UTC().Truncate(time.Second)
+			header, earliest = t.Format(time.RFC850), t
+		case 4:
+			t := now.Add(time.Duration(1+r.Intn(5000)) * time.Second).UTC().Truncate(time.Second)
+			header, earliest = t.Format(time.ANSIC), t
+		default:
+			header = Pick(r, []string{"soon", "5.0", " 5", "", "-"})
+		}
+		enc := fmt.Sprintf("C15 retry-after header=%q", header)
+		c.R.Eval(enc, !earliest.IsZero())
+		c.R.Count("retry-after")
+		e := lfserrors.NewRetriableLaterError(fmt.Errorf("deferred"), header)
+		if earliest.IsZero() {
+			continue // not a delay at all: the ordinary back-off applies (nil) — nothing to compare
+		}
+		if e == nil {
+			c.R.Add(Finding{Kind: "oracle", What: "a Retry-After value in a form a recipient has to accept is not understood: the attempt is repeated on the ordinary back-off, before the indicated time", Case: enc})
+			continue
+		}
+		at, ok := lfserrors.IsRetriableLaterError(e)
+		if !ok {
+			continue
+		}
+		if at.Before(earliest.Add(-2 * time.Second)) {
+			c.R.Add(Finding{Kind: "oracle", What: "the instant derived from a Retry-After value lies before the one the server named: the attempt is repeated too early", Case: enc,
+				Impl: fmt.Sprintf("derived %s, named %s", at.UTC().Format(time.RFC3339), earliest.UTC().Format(time.RFC3339))})
 		}
 	}
 }
